@@ -374,6 +374,20 @@ func intersectionStableSorted(a0, a1, b0, b1 Point) (Point, bool) {
 // is not guaranteed to have the correct sign (i.e., the return value may need
 // to be negated).
 func intersectionExact(a0, a1, b0, b1 Point) Point {
+	// Evaluate the edges in a canonical order, so that the result does not
+	// depend on the order of the arguments. This matters for exactly collinear
+	// edges, where the endpoint to return is chosen with the help of symbolic
+	// perturbations (which distinguish an edge normal from its negation).
+	if a0.Cmp(a1.Vector) > 0 {
+		a0, a1 = a1, a0
+	}
+	if b0.Cmp(b1.Vector) > 0 {
+		b0, b1 = b1, b0
+	}
+	if c := a0.Cmp(b0.Vector); c > 0 || (c == 0 && a1.Cmp(b1.Vector) > 0) {
+		a0, a1, b0, b1 = b0, b1, a0, a1
+	}
+
 	// Since we are using presice arithmetic, we don't need to worry about
 	// numerical stability.
 	a0P := r3.PreciseVectorFromVector(a0.Vector)
